@@ -24,7 +24,7 @@ EXPLANATION = (
     "carries the time-step counter; the dap column carries the state's dap. C07.d: the planting / harvest year lists "
     "derived at initialisation are not mutated in place while another name aliases the same list. C07.e: crop_mature is set only under `<clock> >= crop.Maturity` "
     "where the clock's normal form is the state's own days-after-planting (under CalendarType == 1) or cumulative degree days (under "
-    "CalendarType == 2) of that day - not a delay-adjusted or otherwise shifted clock - and both calendar types are covered. C07.f: crop_mature, crop_dead, harvest_flag and dap are cleared on every path of the season reset (literal setattr loops are expanded). NOT decided: the "
+    "CalendarType == 2) of that day - not a delay-adjusted or otherwise shifted clock - and both calendar types are covered. C07.f: crop_mature, crop_dead, harvest_flag and dap are cleared on every path of the season reset (literal setattr loops are expanded). C07.g: the growing-season window excludes the step that starts on the harvest date (the summary is written on the step that ends on it), so the season's length does not depend on the off-season flag. NOT decided: the "
     "planting / harvest year arithmetic itself (numeric).")
 
 L = frozenset
@@ -366,6 +366,46 @@ def rule_f(chk, prog):
     chk.floor("C07.f", len(found), 3, "season flags cleared by the reset")
 
 
+def rule_g(chk, prog):
+    """C07.g (a season ends when its latest harvest date is reached - the same day with and without off-season simulation): the summary
+    row is written on the step whose END is the harvest date; the growing-season window, which is tested on the step's START, must
+    therefore exclude a start on the harvest date (harvest > start), so that no growing day follows the summary row."""
+    step = prog.func(STEP_FN)
+    flow = flow_of(step)
+    cfg = flow.cfg
+    def from_attr(name, attr, at):
+        ds = flow.defs_reaching(name, at)
+        return bool(ds) and all(d != ENTRY and isinstance(cfg.nodes[d].ast, ast.Assign)
+                                and any(isinstance(x, ast.Attribute) and x.attr == attr for x in ast.walk(cfg.nodes[d].ast.value)) for d in ds)
+    n = 0
+    for t in cfg.live_nodes():
+        c = t.ast
+        if t.kind != "test" or not isinstance(c, ast.Compare) or len(c.ops) != 1:
+            continue
+        l, r = c.left, c.comparators[0]
+        if not (isinstance(l, ast.Name) and isinstance(r, ast.Name)):
+            continue
+        for h, d, op in ((l, r, c.ops[0]), (r, l, {ast.Lt: ast.Gt(), ast.LtE: ast.GtE(), ast.Gt: ast.Lt(), ast.GtE: ast.LtE()}.get(type(c.ops[0]), c.ops[0]))):
+            if from_attr(h.id, "harvest_dates", t.id) and from_attr(d.id, "step_start_time", t.id):
+                n += 1
+                construct = f"{norm(c)} (harvest date against the step's start)"
+                if isinstance(op, ast.Gt):
+                    chk.ok("C07.g", STEP_FN, construct, "a step starting on the harvest date is outside the season: the last growing day is the one whose summary is written")
+                else:
+                    chk.violation("C07.g", STEP_FN, construct, "the growing-season window includes the step that STARTS on the harvest date, but the season's summary "
+                                  "is written on the step that ENDS on it: with off-season simulation one more growing day follows the summary row (the "
+                                  "season is a day longer than without, seasonal totals miss that day)", loc=step.loc(c))
+    chk.floor("C07.g", n, 1, "comparisons of the harvest date with the step start")
+    # the summary trigger compares the harvest date with the step END by equality
+    trig = [t for t in cfg.live_nodes() if t.kind == "test" and isinstance(t.ast, ast.Compare) and isinstance(t.ast.ops[0], ast.Eq)
+            and any(isinstance(x, ast.Attribute) and x.attr == "harvest_dates" for x in ast.walk(t.ast))
+            and any(isinstance(x, ast.Attribute) and x.attr == "step_end_time" for x in ast.walk(t.ast))]
+    if trig:
+        chk.ok("C07.g", STEP_FN, norm(trig[0].ast)[:80], "summary written on the step that ends on the harvest date")
+    else:
+        chk.violation("C07.g", STEP_FN, "harvest_dates[season] == step_end_time", "the summary is no longer triggered by the step that ends on the harvest date", loc=step.loc())
+
+
 def run(chk, prog, tier):
     rule_a(chk, prog)
     rule_b(chk, prog)
@@ -373,4 +413,5 @@ def run(chk, prog, tier):
     rule_d(chk, prog)
     rule_e(chk, prog)
     rule_f(chk, prog)
+    rule_g(chk, prog)
     chk.exhaustive = True
